@@ -5,6 +5,9 @@ import struct
 from . import wire as W
 
 MTUS = [576, 577, 1280, 1500, 1514, 4096, 9000, 9216]
+# every residue of (MTU - header) modulo the record sizes 6, 14 and 20 occurs in these two dense ranges:
+# "exactly fits", "one byte short", "one byte over" for station lists, Emit descriptors and QueryResp descriptors
+MTUS_DENSE = list(range(576, 616)) + list(range(1486, 1526)) + list(range(9196, 9217))
 GENS = [0, 1, 0x00FF, 0xFF00, 0xFFFF, 0x1234]
 BYTEVALS = [0x00, 0x01, 0x7F, 0x80, 0xFF]
 
@@ -51,7 +54,8 @@ def rand_name(rng, maxlen=40, printable=False):
 
 def rand_cfg(rng, mtu=None, wifi=None, mac=None):
     if mtu is None:
-        mtu = rng.choice(MTUS) if rng.random() < 0.7 else rng.randint(576, 9216)
+        r = rng.random()
+        mtu = rng.choice(MTUS) if r < 0.5 else rng.choice(MTUS_DENSE) if r < 0.8 else rng.randint(576, 9216)
     if wifi is None:
         wifi = rng.random() < 0.4
     cfg = dict(mtu=mtu, mac=mac or rand_mac(rng),
@@ -211,6 +215,16 @@ def f_noise(rng, mtu):
     n = rng.choice([0, 1, 13, 14, 17, 18, 31, 32, 33, 34, 35, 36, 46, 60, mtu - 1, mtu]) \
         if rng.random() < 0.5 else rng.randint(0, mtu)
     return bytes(rng.getrandbits(8) for _ in range(n))
+
+
+def pick_mtu(rng, common=(576, 1500, 9216)):
+    """MTU choice used by the per-request checks: common sizes, the dense boundary ranges, anything"""
+    r = rng.random()
+    if r < 0.35:
+        return rng.choice(common)
+    if r < 0.8:
+        return rng.choice(MTUS_DENSE)
+    return rng.randint(576, 9216)
 
 
 def cap_emit(mtu):
